@@ -80,6 +80,7 @@ class Explorer:
         self.max_paths = 100000
         self.branch_timeout_ms = 5000
         self.inputs = {}               # name -> list of (index, term-or-(tag,val)) registered by fresh_*()
+        self.real_inputs = []
         self.reset_path([])
 
     def reset_path(self, forced):
@@ -87,6 +88,7 @@ class Explorer:
         self.obligations = []          # (name, z3 bool) collected on this path (in-bounds etc.)
         self.notes = []
         self.inputs = {}
+        self.real_inputs = []
         self.pc_heavy = False
         self._solver = None
 
@@ -165,7 +167,7 @@ class Explorer:
         return d
 
     # -- final queries ---------------------------------------------------------------
-    def solve(self, formulas, cap_s=60, want_model=True, extra_terms=None):
+    def solve(self, formulas, cap_s=60, want_model=True, extra_terms=None, eval_named=None):
         """check sat of pc + formulas in a forked child under a hard wall-clock cap.
         returns ('unsat'|'sat'|'unknown', modeldict or None, seconds)"""
         self.nforkq += 1
@@ -187,6 +189,8 @@ class Explorer:
                     out['m'] = vals
                     if extra_terms:
                         out['x'] = {k: raw_value(m, t) for k, t in extra_terms.items()}
+                    if eval_named:
+                        out['false'] = [n for n, p in eval_named if not z3.is_true(m.eval(p, model_completion=True))]
                 elif r == 'unknown':
                     out['why'] = s.reason_unknown()
                 os.write(wfd, pickle.dumps(out))
@@ -225,8 +229,8 @@ class Explorer:
 
 
 def _raw_entry(m, t):
-    if isinstance(t, tuple):      # exact-domain (tag, val)
-        return ('x', raw_value(m, t[0]), raw_value(m, t[1]))
+    if isinstance(t, tuple):      # exact-domain (tag, val[, scale])
+        return ('x', raw_value(m, t[0]), raw_value(m, t[1]), t[2] if len(t) > 2 else 1)
     return raw_value(m, t)
 
 
